@@ -2,6 +2,8 @@ package main
 
 import (
 	"fmt"
+	"go/token"
+	"go/types"
 	"sort"
 	"strings"
 
@@ -387,5 +389,67 @@ func runC17(c *Ctx) {
 			c.Check(ok, "O5", "PROV", funcKey(up)+": the label patch is applied through the caller's pod object", instrPos(in), "Patch(ctx, pod, …) with pod = the parameter", "the GPU-group label is patched on a copy: the caller's pod object does not carry the label, and rollback (which removes the labels it sees on that object) leaves the label — and therefore the reservation pod — behind")
 		}
 		c.Floor("O5", "PROV label patches", n, 1)
+	}
+	// ---- O7: the reader of the consumer labels sees both label forms the binder writes
+	// (updatePodGPUGroup writes either the single label or one label per group; the sync, the completion handler and the
+	// scheduler's snapshot all learn a pod's groups from GetGpuGroups)
+	if gg := c.Anchor("O7", pkgCommonRes, "", "GetGpuGroups"); gg != nil {
+		isLabelScan := func(in ssa.Instruction) bool {
+			r, ok := in.(*ssa.Range)
+			if !ok {
+				return false
+			}
+			m, ok := r.X.Type().Underlying().(*types.Map)
+			return ok && m.Key().String() == "string" && m.Elem().String() == "string"
+		}
+		isLabelMap := func(v ssa.Value) bool {
+			m, ok := v.Type().Underlying().(*types.Map)
+			return ok && m.Key().String() == "string" && m.Elem().String() == "string"
+		}
+		// a return taken because the pod has no labels at all needs no scan
+		emptyLabelsEdge := func(from, to *ssa.BasicBlock) bool {
+			iff, ok := from.Instrs[len(from.Instrs)-1].(*ssa.If)
+			if !ok || from.Succs[0] == from.Succs[1] {
+				return false
+			}
+			onTrue := from.Succs[0] == to
+			bo, ok := iff.Cond.(*ssa.BinOp)
+			if !ok {
+				return false
+			}
+			k, isK := bo.Y.(*ssa.Const)
+			if !isK {
+				return false
+			}
+			subject := bo.X
+			if call, ok := subject.(*ssa.Call); ok {
+				if b, ok := call.Call.Value.(*ssa.Builtin); ok && b.Name() == "len" && k.Value != nil && k.Value.ExactString() == "0" {
+					subject = call.Call.Args[0]
+				} else {
+					return false
+				}
+			} else if !k.IsNil() {
+				return false
+			}
+			if !isLabelMap(subject) {
+				return false
+			}
+			switch bo.Op {
+			case token.EQL, token.LEQ:
+				return onTrue
+			case token.NEQ, token.GTR:
+				return !onTrue
+			}
+			return false
+		}
+		scans := len(c.P.deepFind(gg, isLabelScan, 2))
+		for _, ret := range instrsIn(gg, isReturn) {
+			r := ret
+			_, path, found := reachAvoiding([]cfgPos{entryPos(gg)}, func(in ssa.Instruction) bool { return in == r }, isLabelScan,
+				func(from, to *ssa.BasicBlock) bool { return !emptyLabelsEdge(from, to) })
+			c.Check(!found, "O7", "MPT", funcKey(gg)+": every result is computed after scanning the per-group labels", instrPos(ret), "the label map is ranged over before this return",
+				"GetGpuGroups can return without looking at the per-group labels ("+pathStr(path)+"): a multi-fraction pod (labelled only runai-gpu-group/<group>) reports no groups, its completion does not trigger the sync of its groups and the reservation pods stay without a live consumer")
+		}
+		c.Floor("O7", "MPT label scans", scans, 1)
 	}
 }
